@@ -188,6 +188,14 @@ def module_fn(ex, st, mod, attr, e, cx, k):
         return ex.ev(st, d[0], cx, f)
     if mod == 'click' and attr == 'echo':
         return k(st, NONE_SV)
+    if mod == 're' and attr in ('search', 'match', 'fullmatch'):
+        # regular-expression matching is opaque: any outcome (no match, or some match object)
+        def f(st, vs):
+            m = ex.fresh(T.opt(T.Ty('match')), 'match')
+            return k(st.assume(m.z >= 0), m)
+        return ex.ev_list(st, args, cx, f)
+    if mod == 're' and attr == 'compile':
+        return k(st, SV(OPAQUE, I(0)))
     if mod == 'os' or mod.startswith('os.'):
         raise VCError(f'os function {attr} needs an assumed contract')
     raise VCError(f'module function {mod}.{attr} outside subset')
@@ -266,6 +274,23 @@ def builtin_method(ex, st, obj, mname, args, kwargs, cx, node, k):
             return k(ex.set_list(st, obj, n, z3.Lambda([jv], z3.Select(arr, n - 1 - jv))), NONE_SV)
         if mname == 'clear':
             return k(ex.set_list(st, obj, I(0), arr), NONE_SV)
+    # ---- regular-expression match object (opaque) -------------------------------------------------
+    if t.kind == 'match':
+        if mname == 'group':
+            gi = ex.coerce(args[0], INT).z if args else I(0)
+            has = ex.uf('match_has_group', z3.IntSort(), z3.IntSort(), z3.BoolSort())(obj.z, gi)
+            txt = ex.uf('match_group', z3.IntSort(), z3.IntSort(), z3.StringSort())(obj.z, gi)
+            dt = T.sort_of(T.opt(STR))
+            return k(st, SV(T.opt(STR), z3.If(has, dt.some(txt), dt.none)))
+        if mname == 'groups':
+            n = ex.uf('match_ngroups', z3.IntSort(), z3.IntSort())(obj.z)
+            # only its length is ever used: a list of that length
+            s2, r = ex.new_list(st.assume(n >= 0), T.lst(T.opt(STR)), n, ex.empty_arr(INT) if False else
+                                z3.K(z3.IntSort(), T.sort_of(T.opt(STR)).none), 'groups')
+            return k(s2, r)
+    if t.kind == 'opaque' and mname in ('search', 'match', 'fullmatch'):
+        m = ex.fresh(T.opt(T.Ty('match')), 'match')
+        return k(st.assume(m.z >= 0), m)
     # ---- configuration node (parsed YAML) ------------------------------------------------------
     if t.kind == 'cfg':
         if mname == 'get':
